@@ -318,12 +318,17 @@ class ConvolvedFluxes(object):
             # same units as the current ones for the interpolation, and we need
             # to add the flux unit back.
 
+            # Converting the requested apertures to the units of the tabulated
+            # ones can land one ulp outside the table after the checks above
+            x_new = np.clip(c.apertures.to(self.apertures.unit).value,
+                            self.apertures.value.min(), self.apertures.value.max())
+
             flux_interp = interp1d(self.apertures, self.flux)
-            c.flux = flux_interp(c.apertures.to(self.apertures.unit)) * self.flux.unit
+            c.flux = flux_interp(x_new) * self.flux.unit
 
             # The following is not strictly correct - errors from interpolation is not interpolation of errors
             error_interp = interp1d(self.apertures, self.error)
-            c.error = error_interp(c.apertures.to(self.apertures.unit)) * self.error.unit
+            c.error = error_interp(x_new) * self.error.unit
 
         else:
 
